@@ -72,32 +72,40 @@ def r2(ctx):
     rd = fb.fn('ebusd::NumberDataType::readRawValue')
     wr = fb.fn('ebusd::NumberDataType::writeRawValue')
     info = {}
+    import re as _re
     for fn in (rd, wr):
         ctx.touch(fn)
         d = {}
+        # role-normalised text: parameters by position, so that both siblings compare equal whatever their names
+        def norm(k):
+            for i, p in enumerate(fn.params):
+                if p.get('name'):
+                    k = _re.sub(r'(?<![\w.])%s(?![\w(])' % _re.escape(p['name']), 'P%s' % p.get('t', i).split(' ')[0][:6], k)
+            return k
+        rev_assigns = []
         for nid, dd, rhs, op, lhs in fn.assignments():
             if rhs is None or not dd:
                 continue
-            nm = dd.split(':')[-1]
             atoms = set((a[0], a[1]) for a in fn.atoms(nid))
             rev = ('this.hasFlag(#%d)' % fl['REV'], True) in atoms
             bcd = ('this.hasFlag(#%d)' % fl['BCD'], True) in atoms
-            k = fn.key(rhs)
-            if nm == 'start' and rev:
-                d['start_rev'] = k
-            if nm == 'incr' and rev:
-                d['incr_rev'] = k
-            if nm == 'exp' and op == '*=':
+            k = norm(fn.key(rhs))
+            if rev and op == '=':
+                rev_assigns.append(k)
+            if op == '*=':
                 d['step_bcd' if bcd else 'step_other'] = (op, k)
-            if nm == 'exp' and op == '<<=':
+            if op == '<<=' and 'm_firstBit' not in k:
                 d['step_bin'] = (op, k)
+        rev_assigns.sort()
+        d['start_rev'] = [k for k in rev_assigns if k != '#-1']
+        d['incr_rev'] = [k for k in rev_assigns if k == '#-1']
         shifts = [(v['op'], fn.key(v['rhs'])) for nid, v in fn.nodes.items() if v['k'] == 'CompoundAssignOperator' and
                   v.get('op') in ('<<=', '>>=') and 'm_firstBit' in fn.key(v['rhs'])]
         d['firstbit'] = shifts
         info[fn.name] = d
     a, b = info[rd.name], info[wr.name]
     for key in ('start_rev', 'incr_rev', 'step_bcd', 'step_bin'):
-        ok = a.get(key) is not None and a.get(key) == b.get(key)
+        ok = bool(a.get(key)) and a.get(key) == b.get(key)
         ctx.ob('C06.R2', rd, rd.body, ok, 'traversal %s' % key, 'decode %s / encode %s' % (a.get(key), b.get(key)))
     okf = [s[0] for s in a['firstbit']] == ['>>='] and [s[0] for s in b['firstbit']] == ['<<=']
     ctx.ob('C06.R2', rd, rd.body, okf, 'first bit shift', 'decode %s / encode %s' % (a['firstbit'], b['firstbit']))
@@ -113,26 +121,51 @@ def r3(ctx):
     ctx.touch(rd)
     ctx.touch(wr)
     enc = {}
+    # roles: the two bounded locals (group <= 0x1f, number <= 0x7f) and the output/input symbol strings
+    wg = wn = None
+    encs = [wr.key(rhs) for nid, d, rhs, op, lhs in wr.assignments() if rhs is not None and '<<' in wr.key(rhs) and '|' in wr.key(rhs)]
+    for b in wr.blocks.values():
+        if b.cond is None:
+            continue
+        for x in wr.walk(b.cond):
+            xv = wr.nodes[x]
+            if xv['k'] == 'BinaryOperator' and xv.get('op') == '>' and wr.val(xv['rhs']) in (0x1f, 0x7f):
+                nm = wr.key(xv['lhs'])
+                if not any(facts.Explorer._mentions(e, nm) for e in encs):
+                    continue
+                if wr.val(xv['rhs']) == 0x1f:
+                    wg = nm
+                else:
+                    wn = nm
+    if not wg or not wn:
+        raise AnalysisBroken('C06.R3: TEM_P range check (group > 0x1f / number > 0x7f) not found')
+    wout = wr.P(3)
     for nid, d, rhs, op, lhs in wr.assignments():
-        if d and d.endswith(':value') and rhs is not None and ('grp' in wr.key(rhs) and 'num' in wr.key(rhs)):
+        if d and rhs is not None and (wg in wr.key(rhs) and wn in wr.key(rhs)) and '<<' in wr.key(rhs):
             atoms = set((a[0], a[1]) for a in wr.atoms(nid))
-            master = ('output.isMaster()', True) in atoms
-            guard = ('(grp <= #31)', True) in atoms and ('(num <= #127)', True) in atoms
-            env = {'grp': bits.var('grp', 5), 'num': bits.var('num', 7)}
+            master = ('%s.isMaster()' % wout, True) in atoms
+            guard = ('(%s <= #31)' % wg, True) in atoms and ('(%s <= #127)' % wn, True) in atoms
+            env = {wg: bits.var('grp', 5), wn: bits.var('num', 7)}
             enc['master' if master else 'slave'] = (bits.evaluate(wr, rhs, env), guard, nid)
     dec = {}
+    rin = rd.P(2)
+    rval = rd.outarg('::readRawValue', 3) or 'value'
     for nid, d, rhs, op, lhs in rd.assignments():
-        if d and rhs is not None and d.split(':')[-1] in ('grp', 'num') and 'value' in rd.key(rhs):
+        if d and rhs is not None and op == '=' and rval in rd.key(rhs) and '&' in rd.key(rhs):
             atoms = set((a[0], a[1]) for a in rd.atoms(nid))
-            master = ('input.isMaster()', True) in atoms
-            dec.setdefault('master' if master else 'slave', {})[d.split(':')[-1]] = rhs
+            master = ('%s.isMaster()' % rin, True) in atoms
+            # which field: by the mask width (0x1f -> group, 0x7f -> number)
+            k = rd.key(rhs)
+            role = 'grp' if '#31' in k else ('num' if '#127' in k else None)
+            if role:
+                dec.setdefault('master' if master else 'slave', {})[role] = rhs
     for side in ('master', 'slave'):
         if side not in enc or side not in dec or len(dec[side]) != 2:
             raise AnalysisBroken('C06.R3: TEM_P %s layout expressions not recognised' % side)
         wbits, guard, wn = enc[side]
         ctx.ob('C06.R3', wr, wn, guard, 'TEM_P %s encode guarded' % side, 'group <= 0x1f and number <= 0x7f dominate the encoding: %s' % guard)
         for nm, width in (('grp', 5), ('num', 7)):
-            got = bits.evaluate(rd, dec[side][nm], {'value': wbits})
+            got = bits.evaluate(rd, dec[side][nm], {rval: wbits})
             ok = got[:width] == [('v', nm, i) for i in range(width)] and all(x == 0 for x in got[width:16])
             ctx.ob('C06.R3', rd, dec[side][nm], ok, 'TEM_P %s %s round trip' % (side, nm), 'decoded bits %s' % got[:8])
 
@@ -146,7 +179,7 @@ def r4(ctx):
     ctx.touch(fn)
     parses = fn.calls('strtoul', 'strtol', 'ebusd::parseInt', suffix=False)
     loops = fn.all('CXXForRangeStmt', 'ForStmt', 'WhileStmt')
-    name_cmp = [b.id for b in fn.blocks.values() if b.cond is not None and 'inputStr' in fn.key(b.cond) and '.second' in fn.key(b.cond)]
+    name_cmp = [b.id for b in fn.blocks.values() if b.cond is not None and '.second' in fn.key(b.cond) and '==' in fn.key(b.cond)]
     if not parses or not name_cmp:
         raise AnalysisBroken('C06.R4: name comparison or numeric fallback not found')
     # loop exit blocks: blocks testing the range-for condition
